@@ -575,7 +575,7 @@ func newVdb(r *rand.Rand) *vdb {
 				case c.typ == vtInt && small:
 					row[i] = IntVal(r.Intn(3))
 				case wide:
-					row[i] = SuStr([]string{"", "a"}[r.Intn(2)])
+					row[i] = SuStr([]string{"b", "a"}[r.Intn(2)])
 				case c.typ == vtInt:
 					row[i] = IntVal(g.randInt())
 				default:
